@@ -124,6 +124,10 @@ var (
 	tYFile  = &ty{k: "yfile"}
 	tYPath  = &ty{k: "ypath"}
 	tYNode  = &ty{k: "ynode"}
+	tOp     = &ty{k: "opcode"}
+	tOps    = &ty{k: "opcodes"}
+	tOpGs   = &ty{k: "opgroups"}
+	tSeqM   = &ty{k: "seqm"} // *difflib.sequenceMatcher: the two sequences it was built from
 	tBad    = &ty{k: "?"}
 )
 
@@ -206,6 +210,14 @@ func (t *ty) lean() string {
 		return "GoSnaps.GoIO.YPath"
 	case "ynode":
 		return "GoSnaps.GoIO.YNode"
+	case "opcode":
+		return "GoSnaps.GoIO.OpCodeI"
+	case "opcodes":
+		return "List GoSnaps.GoIO.OpCodeI"
+	case "opgroups":
+		return "List (List GoSnaps.GoIO.OpCodeI)"
+	case "seqm":
+		return "(List (List UInt8) × List (List UInt8))"
 	case "registry":
 		return "GoSnaps.GoIO.Registry"
 	case "sregistry":
@@ -360,6 +372,31 @@ var funcSpecs = []funcSpec{
 			"yaml.GetValue": {"yamlGetValue", fnOf(pairOf(tText, tErr), tYNode)},
 			"yaml.Update":   {"yamlUpdate", fnOf(pairOf(tYFile, tErr), tYFile, tYPath, tText)}, "yaml.MarshalFile": {"yamlMarshal", fnOf(tText, tYFile, tBool)},
 			"typeCheck": {"typeCheckFn", fnOf(tErr, tText)}, "typePlaceholder": {"typePlaceholderFn", fnOf(tText, tText)}}},
+	// colors (both colour modes: `nocolor` stands for colors.NOCOLOR) and the diff report
+	{pkg: "colors", name: "hasNewlineSuffix", sig: "s:string->bool", out: "IO"},
+	{pkg: "colors", name: "trimSuffix", sig: "s:string->string", out: "IO"},
+	{pkg: "colors", name: "Fprint", sig: "w:io.Writer,color:string,s:string->", out: "IO", inout: []string{"w"},
+		extra: []param{{"nocolor", tBool}}, externs: map[string]param{"NOCOLOR": {"nocolor", tBool}}},
+	{pkg: "colors", name: "FprintEqual", sig: "w:io.Writer,s:string->", out: "IO", inout: []string{"w"},
+		extra: []param{{"nocolor", tBool}}, externs: map[string]param{"NOCOLOR": {"nocolor", tBool}}},
+	{pkg: "colors", name: "FprintDelete", sig: "w:io.Writer,s:string->", out: "IO", inout: []string{"w"},
+		extra: []param{{"nocolor", tBool}}, externs: map[string]param{"NOCOLOR": {"nocolor", tBool}}},
+	{pkg: "colors", name: "FprintInsert", sig: "w:io.Writer,s:string->", out: "IO", inout: []string{"w"},
+		extra: []param{{"nocolor", tBool}}, externs: map[string]param{"NOCOLOR": {"nocolor", tBool}}},
+	{pkg: "colors", name: "FprintRange", sig: "w:io.Writer,r1:string,r2:string->", out: "IO", inout: []string{"w"},
+		extra: []param{{"nocolor", tBool}}, externs: map[string]param{"NOCOLOR": {"nocolor", tBool}}},
+	{pkg: "snaps", name: "printRange", sig: "w:io.Writer,opcodes:[]difflib.OpCode->", out: "IO", inout: []string{"w"},
+		extra: []param{{"nocolor", tBool}}},
+	{pkg: "snaps", name: "getUnifiedDiff", sig: "a:string,b:string->string,int,int", out: "IO",
+		extra: []param{{"nocolor", tBool}, {"groupedOpCodes", fnOf(tOpGs, tTexts, tTexts, tInt)}, {"singlelineDiffFn", fnOf(nestedPair([]*ty{tText, tInt, tInt}), tText, tText)}},
+		externs: map[string]param{"colors.NOCOLOR": {"nocolor", tBool}},
+		extFns:  map[string]param{"singlelineDiff": {"singlelineDiffFn", fnOf(nestedPair([]*ty{tText, tInt, tInt}), tText, tText)}}},
+	{pkg: "snaps", name: "buildDiffReport", sig: "inserted:int,deleted:int,diff:string,name:string,line:int->string", out: "IO",
+		extra: []param{{"nocolor", tBool}}},
+	{pkg: "snaps", name: "prettyDiff", sig: "expected:string,received:string,name:string,line:int->string", out: "IO",
+		extra: []param{{"nocolor", tBool}, {"groupedOpCodes", fnOf(tOpGs, tTexts, tTexts, tInt)}, {"singlelineDiffFn", fnOf(nestedPair([]*ty{tText, tInt, tInt}), tText, tText)}},
+		externs: map[string]param{"colors.NOCOLOR": {"nocolor", tBool}},
+		extFns:  map[string]param{"singlelineDiff": {"singlelineDiffFn", fnOf(nestedPair([]*ty{tText, tInt, tInt}), tText, tText)}}},
 	// Config options
 	{pkg: "snaps", name: "Update", sig: "u:bool->func(*Config)", out: "IO"},
 	{pkg: "snaps", name: "Filename", sig: "name:string->func(*Config)", out: "IO"},
@@ -660,6 +697,9 @@ func goType(e ast.Expr) *ty {
 			if selName(e.Elt) == "match.MatcherError" || selName(e.Elt) == "MatcherError" {
 				return tMErrs
 			}
+			if selName(e.Elt) == "difflib.OpCode" {
+				return tOps
+			}
 		}
 	case *ast.StarExpr:
 		if id, ok := e.X.(*ast.Ident); ok && id.Name == "Config" {
@@ -738,6 +778,18 @@ func (t *ftr) exprH(e ast.Expr, hint *ty) ex {
 		if e.Name == "true" || e.Name == "false" {
 			return ex{e.Name, tBool, false}
 		}
+		if v, ok := t.pkg.values[e.Name]; ok && t.lookup(e.Name) == nil {
+			// an untyped integer constant of the package
+			if bl, ok := v.(*ast.BasicLit); ok && bl.Kind == token.INT {
+				return t.exprH(bl, hint)
+			}
+			// a string constant of a package other than snaps (no Generated.go_<name> for those)
+			if t.sp.pkg != "snaps" {
+				if str, ok := t.pkg.constString(v); ok {
+					return ex{bytesLit(str), tText, false}
+				}
+			}
+		}
 		return t.fail("unknown identifier %s (package variables must be declared as externs)", e.Name)
 	case *ast.SelectorExpr:
 		s := t.src(e)
@@ -752,6 +804,11 @@ func (t *ftr) exprH(e ast.Expr, hint *ty) ex {
 						ft = tMap1
 					}
 					return ex{t.ln(id.Name) + "." + e.Sel.Name, ft, false}
+				}
+			}
+			if vt := t.lookup(id.Name); vt != nil && vt.k == "opcode" {
+				if f := map[string]string{"Tag": "tag", "I1": "i1", "I2": "i2", "J1": "j1", "J2": "j2"}[e.Sel.Name]; f != "" {
+					return ex{t.ln(id.Name) + "." + f, tInt, false}
 				}
 			}
 			if vt := t.lookup(id.Name); vt != nil && (vt.k == "anym" || vt.k == "typem" || vt.k == "custm") {
@@ -892,6 +949,8 @@ func (t *ftr) exprH(e ast.Expr, hint *ty) ex {
 			et = tByte
 		case "bools":
 			et = tCOpt
+		case "opcodes":
+			et = tOp
 		case "texts":
 			et = tText
 		default:
@@ -1113,7 +1172,7 @@ func (t *ftr) call(e *ast.CallExpr) ex {
 			if len(e.Args) == 1 {
 				x := t.expr(e.Args[0])
 				switch x.t.k {
-				case "text", "texts", "merrs", "matchers", "map1", "map2", "smap", "set", "bools":
+				case "text", "texts", "merrs", "matchers", "map1", "map2", "smap", "set", "bools", "opcodes", "opgroups":
 					// (a Go map holds each key once, as the association lists built by map*Set do)
 				default:
 					return t.fail("len of %s", x.t.lean())
@@ -1195,6 +1254,14 @@ func (t *ftr) call(e *ast.CallExpr) ex {
 					return ex{"(GoSnaps.unlines " + s.s + ")", tText, s.p}
 				}
 				return t.fail("%s applied to %s", name, s.t.lean())
+			}
+		}
+		if name == "strings.Join" && len(e.Args) == 2 {
+			if sep, ok := t.stringLit(e.Args[1]); ok && sep == "" {
+				x := t.expr(e.Args[0])
+				if t.err == nil && x.t.k == "texts" {
+					return ex{"(List.flatten " + x.s + ")", tText, x.p}
+				}
 			}
 		}
 		return t.fail("%s is supported for the literal separator \"\\n\" only (and strings.Split(s, sep)[0])", name)
@@ -1392,6 +1459,26 @@ func (t *ftr) assign(b *strings.Builder, ind string, s *ast.AssignStmt) {
 				}
 				fmt.Fprintf(b, "%s%s := %s\n", ind, t.ln(nm), comp.s)
 			}
+		}
+		return
+	}
+	if len(s.Lhs) == len(s.Rhs) && len(s.Lhs) > 1 && s.Tok == token.DEFINE {
+		// a, b := x, y with fresh variables on the left: the right-hand sides cannot see them
+		var xs []ex
+		for i, r := range s.Rhs {
+			id, ok := s.Lhs[i].(*ast.Ident)
+			if !ok || t.lookupLocal(id.Name) != nil {
+				t.stmtFail(b, ind, "unsupported parallel definition %s", t.src(s))
+				return
+			}
+			xs = append(xs, t.expr(r))
+			if t.err != nil {
+				b.WriteString(ind + "sorry\n")
+				return
+			}
+		}
+		for i, x := range xs {
+			t.define(b, ind, s.Lhs[i].(*ast.Ident).Name, x)
 		}
 		return
 	}
@@ -1932,12 +2019,12 @@ func (t *ftr) rangeStmt(s *ast.RangeStmt, ind string, res *ty) string {
 		t.pop()
 		return b.String()
 	}
-	if xs.t.k != "texts" && xs.t.k != "merrs" && xs.t.k != "matchers" && xs.t.k != "dirents" && xs.t.k != "godecls" && xs.t.k != "cfgopts" {
+	if xs.t.k != "texts" && xs.t.k != "merrs" && xs.t.k != "matchers" && xs.t.k != "dirents" && xs.t.k != "godecls" && xs.t.k != "cfgopts" && xs.t.k != "opcodes" && xs.t.k != "opgroups" {
 		t.stmtFail(&b, ind, "range over %s (only []string is supported; a string ranges over runes)", xs.t.lean())
 		return b.String()
 	}
 	elemT := map[string]*ty{"texts": tText, "merrs": tMErr, "matchers": tMatch, "dirents": tDirE, "godecls": tDecl,
-		"cfgopts": {k: "func", params: []*ty{tCfg}, res: tCfg}}[xs.t.k]
+		"cfgopts": {k: "func", params: []*ty{tCfg}, res: tCfg}, "opcodes": tOp, "opgroups": tOps}[xs.t.k]
 	whole, indexed := assignedIn(s.Body)
 	if whole["?"] || (k != "_" && whole[k]) {
 		t.stmtFail(&b, ind, "the loop body assigns the range index")
@@ -1992,6 +2079,13 @@ func (t *ftr) rangeStmt(s *ast.RangeStmt, ind string, res *ty) string {
 		t.bind(v, elemT)
 		if lv != leanIdent(v) {
 			t.ren[len(t.ren)-1][v] = lv
+		}
+		if whole[v] {
+			// the body assigns the value variable (a per-iteration copy in Go)
+			t.tmp++
+			mv := fmt.Sprintf("%s_%d", leanIdent(v), t.tmp)
+			fmt.Fprintf(&b, "%s  let mut %s := %s\n", ind, mv, lv)
+			t.ren[len(t.ren)-1][v] = mv
 		}
 	}
 	t.loops = append(t.loops, loopCtx{sliceName, k})
